@@ -20,7 +20,9 @@ RULE = ('programs R^N -> R (gradient, hessian, hess_vec) or R^N -> R^M (jacobian
         'jacobian of a UTPM argument) from the concolic generator, N in 1..4; two graphs recorded at probe point 0 (ndarray) and at '
         'probe point 3 (UTPM with drawn D,P); every driver evaluated at probe point 1 (different from both recording points) '
         'and at the recording point, with generated v, w.  Non-trivial = N >= 2, evaluation point != recording point and the '
-        'program is non-linear; distinct by descriptor hash')
+        'program is non-linear; distinct by descriptor hash.  Further buckets: drivers-poly (exact analytic reference), drivers-buffers, '
+        'drivers-intpoint (integer-valued points typed int64/int32/list of ints), gradient-list; hess_vec / vec_hess_vec repeated at the '
+        'same point with another direction; every returned object is kept uncopied and re-checked after all later calls')
 ASSUMPTIONS = [
     'reference derivatives come from algopy forward mode on the direct program (validated by C01/C02/C07/C08/C09/C12), not from the tracer',
     'drivers-poly buckets: polynomial programs with integer/dyadic constants, reference = exact analytic derivatives (sparse multivariate polynomials over Fractions), also cross-checked against the forward-mode reference',
